@@ -4,6 +4,7 @@ import (
 	"context"
 	"encoding/json"
 	"fmt"
+	"golang.org/x/net/idna"
 	"net"
 	"os"
 	"os/exec"
@@ -189,6 +190,30 @@ func c18Once(c *mon.Ctx) {
 			c.R.Count("evaluations", 1)
 			if got != want {
 				c.V("hasvalidtld-malformed", fmt.Sprintf("HasValidTLD(%q) = %v, reference %v", d, got, want), "", nil, nil)
+			}
+		}
+		// labels DERIVED from the entry that are not the entry: its ASCII text dressed as an A-label ("xn--com-" is
+		// valid punycode for "com"), the ACE prefix in front of it, the U-label of an IDN entry, the entry behind a
+		// full-width / ideographic full stop (which IDNA maps to a dot, the table test does not). Whatever such a label
+		// "means" after some canonicalisation, it is not keyed in the table - unless the reference says so.
+		derived := []string{"xn--" + name + "-", "XN--" + strings.ToUpper(name) + "-", "xn--" + name, "xn--" + name + "-a", name + "--", "example\uff0e" + name, "example\u3002" + name, name + "\u3002", "example." + name + "\u200d"}
+		if strings.HasPrefix(name, "xn--") {
+			if u, err := idna.ToUnicode(name); err == nil && u != name {
+				derived = append(derived, u, strings.ToUpper(u), "example."+u)
+			}
+		}
+		for _, d := range derived {
+			for _, lead := range []string{"", "www.example."} {
+				t := r.deleg.Add(48 * time.Hour)
+				got, want := util.HasValidTLD(lead+d, t), refValid(lead+d, t)
+				c.R.Count("evaluations", 1)
+				c.R.Count("derived_label_probes", 1)
+				if got != want {
+					c.V("hasvalidtld-derived", fmt.Sprintf("HasValidTLD(%q, two days after the delegation of %q) = %v, but the table says %v for its right-most label", lead+d, name, got, want), "", nil, nil)
+				}
+			}
+			if got, want := util.IsInTLDMap(d), refInMap(d); got != want {
+				c.V("isintldmap-derived", fmt.Sprintf("IsInTLDMap(%q) = %v, the table says %v", d, got, want), "", nil, nil)
 			}
 		}
 		// total lengths at and around the limits that DNS, byte-sized and 16-bit counters suggest: the right-most label
